@@ -279,6 +279,33 @@ func storeOp(c *Ctx, op string, a map[string]string) {
 				return "err"
 			}
 			return "ok"
+		case "st.redis_gc_race":
+			// instance 0 runs an expiry pass; right before its first HDEL another instance re-announces the same peer
+			if rig.kind != "redis" || len(rig.all) < 2 {
+				return "needs-two-redis-instances"
+			}
+			ih := bittorrent.InfoHashFromBytes(unhx(a["ih"]))
+			p := peerFromKey(unhx(a["pk"]))
+			if err := rig.all[0].PutSeeder(ih, p); err != nil {
+				return "err"
+			}
+			old := rig.clock
+			timecache.VerifSetClock(old + 1e9)
+			fired := false
+			redis.VerifHookBeforeDo(rig.all[0], func(cmd string) {
+				if cmd == "HDEL" && !fired {
+					fired = true
+					_ = rig.all[1].PutSeeder(ih, p) // the re-announce, at clock old+1s, i.e. after the cutoff
+				}
+			})
+			err := redis.VerifCollectGarbage(rig.all[0], old+5e8)
+			redis.VerifHookBeforeDo(rig.all[0], func(string) {})
+			if err != nil {
+				return "err"
+			}
+			s := rig.all[1].ScrapeSwarm(ih, p.IP.AddressFamily)
+			rig.clock = old + 1e9
+			return fmt.Sprintf("reannounced_during_pass=%s kept=%d", b01(fired), s.Complete)
 		case "st.dump":
 			return storeDump()
 		case "st.totals":
@@ -436,5 +463,10 @@ func runStore(c *Ctx, pf storeProfile) {
 		}
 		storeOp(c, "st.dump", map[string]string{})
 		storeOp(c, "st.totals", map[string]string{"inst": "0"})
+		if pf.name == "C05" && kind == "redis" && insts >= 2 {
+			// last operation of the sequence: the state is not compared afterwards
+			fresh := r.Bytes(20)
+			storeOp(c, "st.redis_gc_race", map[string]string{"ih": hx(fresh), "pk": hx(u.peers[0])})
+		}
 	}
 }
